@@ -739,10 +739,16 @@ class StrategyBase(Node):
                 self.bankrupt = True
                 self.flatten()
 
-        # update data if this value is different or
+        # update data if this value is different, if flows were booked since
+        # the last update (they change the return base) or
         # if now has changed - avoid all this if not since it
         # won't change
-        if newpt or not is_zero(self._value - val) or not is_zero(self._notl_value - notl_val):
+        if (
+            newpt
+            or not is_zero(self._value - val)
+            or not is_zero(self._notl_value - notl_val)
+            or not is_zero(self._all_flows.values[inow] - self._net_flows)
+        ):
             self._value = val
             _wvalues(self._values)[inow] = val
 
